@@ -160,3 +160,8 @@ def bytesio_method(eng, p, o, name, args, kws):
     if name == 'close':
         return [(p, None)]
     raise Unsupported(f'BytesIO.{name}')
+
+
+# successive results of read() on a file-like object (heap kind 'chunkfile')
+file_chunk_b = Function('file_chunk_b', IntSort(), Bytes)
+file_chunk_s = Function('file_chunk_s', IntSort(), StringSort())
